@@ -262,6 +262,8 @@ class Unchanged:
 def finish(ctx, case, kind, extra, drawn):
     plt.close("all")
     CALLS.clear()
+    if ctx.i < 16:
+        ctx.sample({"case": ctx.i, "plot": kind, "class": [str(e) for e in extra], **case.describe()})
     ctx.sig((kind, *extra, case.masked, case.multiplier is None, case.decade),
             nontrivial=bool(np.all(case.n >= 2) and drawn))
 
